@@ -11,6 +11,9 @@ import (
 	"bytes"
 	"encoding/json"
 	"fmt"
+	"go/ast"
+	"go/parser"
+	"go/token"
 	"go/types"
 	"math/rand"
 	"os"
@@ -29,6 +32,25 @@ import (
 	"verif/fw"
 	"verif/fw/bindfacts"
 )
+
+// funcDeclText returns the source text of the declaration of function name in file ("" if there is none).
+func funcDeclText(file, name string) string {
+	src, err := os.ReadFile(file)
+	if err != nil {
+		return ""
+	}
+	fset := token.NewFileSet()
+	f, err := parser.ParseFile(fset, file, src, parser.ParseComments)
+	if err != nil {
+		return ""
+	}
+	for _, d := range f.Decls {
+		if fd, ok := d.(*ast.FuncDecl); ok && fd.Recv == nil && fd.Name.Name == name {
+			return string(src[fset.Position(fd.Pos()).Offset:fset.Position(fd.End()).Offset])
+		}
+	}
+	return ""
+}
 
 func main() { fw.Main("C18", "model_checking", run) }
 
@@ -120,11 +142,17 @@ func doJob(j *job) (res result) {
 	extra := map[string]string{}
 	if j.Case.Std != "" {
 		dest = "stdlib"
-		if j.Case.Std == "os" || j.Case.Std == "log" {
+		if j.Case.Std == "os" || j.Case.Std == "log" || j.Case.Std == "log/slog" {
 			// the replacements of the restricted names live in package stdlib
 			b, err := os.ReadFile(filepath.Join(j.Repo, "stdlib", "restricted.go"))
 			if err == nil {
 				extra["restricted.go"] = string(b)
+			}
+		}
+		if j.Case.Std == "log/slog" {
+			// slogNewLogLogger is declared in stdlib/stdlib.go, next to the Symbols table: that declaration alone
+			if fn := funcDeclText(filepath.Join(j.Repo, "stdlib", "stdlib.go"), "slogNewLogLogger"); fn != "" {
+				extra["restricted_slog.go"] = "package stdlib\n\nimport \"log/slog\"\n\n" + fn + "\n"
 			}
 		}
 	} else {
